@@ -4,7 +4,7 @@
    schema.ParseWithSpecialTableName / getOrParse; a state is reachable by ANY list of goroutine
    ids (any interleaving), for any number of goroutines, any programs of Parse calls and any
    relation graph [cfg] (acyclic or cyclic, with or without malformed relations). *)
-From Verif Require Import Base C07_Model C07_Proofs C07_Proofs4 C07_Proofs5 C07_Proofs6 C07_Proofs7 C07_Patch.
+From Verif Require Import Base C07_Model C07_Proofs C07_Proofs4 C07_Proofs5 C07_Proofs6 C07_Proofs7 C07_Patch C07_Errs C07_ErrSpec C07_Errs2.
 
 (* Every return of a public Parse(T) happens after close(initialized) of the schema it returns;
    that schema is of type T and, unless it carries an error, all relations of T are installed. *)
@@ -136,6 +136,72 @@ Proof.
   now apply pno_deadlock.
 Qed.
 Print Assumptions c07_patched_no_deadlock.
+
+(* ---- "the same result (error included) as alone": the error a Parse call returns ---------- *)
+(* Whichever way a call obtained its schema (first look-up, second look-up, LoadOrStore loser,
+   own build), the error it reports is the error the returned schema carries ... *)
+Theorem c07_return_error_is_schemas : forall cfg progs sched st g rr,
+  run cfg (initial progs) sched = Some st -> In rr (t_rets (st_thr st g)) ->
+  rt_err rr = s_err (st_sch st (rt_sid rr)).
+Proof. exact ret_error_is_schemas. Qed.
+Print Assumptions c07_return_error_is_schemas.
+
+(* ... and that error never changes after the return, however the run goes on. *)
+Theorem c07_return_error_stable : forall cfg progs sched sched' st st' g rr,
+  run cfg (initial progs) sched = Some st -> run cfg st sched' = Some st' ->
+  In rr (t_rets (st_thr st g)) -> In rr (t_rets (st_thr st' g)) ->
+  s_err (st_sch st' (rt_sid rr)) = s_err (st_sch st (rt_sid rr)).
+Proof. exact ret_error_stable. Qed.
+Print Assumptions c07_return_error_stable.
+
+(* A model type with a malformed relation of its own fails for EVERY caller, in every schedule,
+   with any number of goroutines: nobody gets a nil error, first use or not. *)
+Theorem c07_malformed_fails_for_everyone : forall cfg progs sched st g rr,
+  run cfg (initial progs) sched = Some st -> In rr (t_rets (st_thr st g)) ->
+  malformed cfg (rt_ty rr) -> rt_err rr = true.
+Proof. exact malformed_fails_always. Qed.
+Print Assumptions c07_malformed_fails_for_everyone.
+
+(* A model type from which no malformed relation is reachable never fails, for any caller. *)
+Theorem c07_untainted_never_fails : forall cfg progs sched st g rr,
+  run cfg (initial progs) sched = Some st -> In rr (t_rets (st_thr st g)) ->
+  ~ tainted cfg (rt_ty rr) -> rt_err rr = false.
+Proof. exact untainted_never_fails. Qed.
+Print Assumptions c07_untainted_never_fails.
+
+(* PARTIAL "same error as alone": any two returns for such a type - e.g. one of a lone call, one
+   of a call among any number of concurrent first users - carry the same error. *)
+Theorem c07_error_as_alone_partial : forall cfg progs1 sched1 st1 g1 rr1 progs2 sched2 st2 g2 rr2,
+  run cfg (initial progs1) sched1 = Some st1 -> In rr1 (t_rets (st_thr st1 g1)) ->
+  run cfg (initial progs2) sched2 = Some st2 -> In rr2 (t_rets (st_thr st2 g2)) ->
+  rt_ty rr1 = rt_ty rr2 ->
+  malformed cfg (rt_ty rr1) \/ ~ tainted cfg (rt_ty rr1) ->
+  rt_err rr1 = rt_err rr2.
+Proof. exact error_as_alone. Qed.
+Print Assumptions c07_error_as_alone_partial.
+
+(* REFUTED without that hypothesis: a well-formed type that belongs to a malformed one fails alone
+   (the nested Parse fails) and succeeds next to a goroutine that has published the malformed type
+   and not yet found its error - getOrParse takes the cache entry as it is (the known hazard). *)
+Theorem c07_error_as_alone_refuted :
+  ~ (forall cfg progs1 sched1 st1 g1 rr1 progs2 sched2 st2 g2 rr2,
+       run cfg (initial progs1) sched1 = Some st1 -> In rr1 (t_rets (st_thr st1 g1)) ->
+       run cfg (initial progs2) sched2 = Some st2 -> In rr2 (t_rets (st_thr st2 g2)) ->
+       rt_ty rr1 = rt_ty rr2 -> rt_err rr1 = rt_err rr2).
+Proof.
+  intro H. destruct outer_alone_fails as (st1 & rr1 & R1 & _ & L1 & T1 & E1).
+  destruct outer_next_to_succeeds as (st2 & rr2 & R2 & _ & L2 & T2 & E2).
+  assert (I1 : In rr1 (t_rets (st_thr st1 0))) by (rewrite L1; left; reflexivity).
+  assert (I2 : In rr2 (t_rets (st_thr st2 1))) by (rewrite L2; left; reflexivity).
+  pose proof (H _ _ _ _ _ _ _ _ _ _ _ R1 I1 R2 I2 (eq_trans T1 (eq_sym T2))) as X. congruence.
+Qed.
+Print Assumptions c07_error_as_alone_refuted.
+
+(* the classification C07_Check evaluates on every observed return is the one of the theorems *)
+Theorem c07_checked_classes : forall cfg t,
+  (malformedb cfg t = true <-> malformed cfg t) /\ (taintedb cfg t = true -> tainted cfg t).
+Proof. intros cfg t. split; [apply malformedb_spec|apply taintedb_sound]. Qed.
+Print Assumptions c07_checked_classes.
 
 (* non-vacuity: the cyclic graph A<->B<->C, two goroutines, a complete run *)
 Example c07_instance :
